@@ -364,6 +364,7 @@ def shards(tier, seed):
     for c in CLASSES:
         out.append(('bfs', c, maxlen, ntags))
         out.append(('ctor', c, maxlen, ntags))
+        out.append(('iter', c, maxlen, ntags))
     states = list(all_states(maxlen, ntags))
     nchunk = 4 if tier == 'quick' else 24
     for c in CLASSES:
@@ -413,6 +414,8 @@ def run_shard(ctx, shard):
     elif kind == 'ctor':
         _, _, maxlen, ntags = shard
         check_constructors(ctx, m, maxlen, ntags)
+    elif kind == 'iter':
+        check_iteration(ctx, m)
     elif kind == 'seq':
         _, _, start, ntags, f0, f1 = shard
         ops = transitions(ntags)
@@ -452,6 +455,78 @@ def check_sequence(ctx, m, init, seq, cid):
                      'after %s: object %r, list %r (step %s %s)' % (cid, after, list(tags2), opname(op), 'returned' if ok else 'raised %r' % (got,)))
             return
         tags = tags2
+
+
+def check_iteration(ctx, m):
+    """iteration is an operation with state: an iterator taken from the object is advanced in lock-step with an iterator over the
+    model list while the object is changed between the steps.  All sequences of <= 5 steps over {next, append, pop, insert at 0,
+    delete first, reverse} from every start length 0..3; every yielded value, every StopIteration and the final contents must agree"""
+    cname = m.cname
+    alphabet = ('N', 'A', 'P', 'I', 'D', 'R')
+
+    def lib_step(o, it, a):
+        if a == 'N':
+            try:
+                return ('y', m.read(next(it)))
+            except StopIteration:
+                return ('stop',)
+        if a == 'A':
+            o.append(m.build((1,)))
+        elif a == 'P':
+            o.pop()
+        elif a == 'I':
+            o.insert(0, m.build((3,)))
+        elif a == 'D':
+            del o[0]
+        elif a == 'R':
+            o.reverse()
+        return ('ok',)
+
+    def ref_step(l, it, a):
+        if a == 'N':
+            try:
+                return ('y', (next(it),))
+            except StopIteration:
+                return ('stop',)
+        if a == 'A':
+            l.append(1)
+        elif a == 'P':
+            l.pop()
+        elif a == 'I':
+            l.insert(0, 3)
+        elif a == 'D':
+            del l[0]
+        elif a == 'R':
+            l.reverse()
+        return ('ok',)
+    for start in range(4):
+        init = tuple((i % 2) + 1 for i in range(start))
+        for L in range(1, 6):
+            for seq in itertools.product(alphabet, repeat=L):
+                if 'N' not in seq or seq[-1] != 'N':
+                    continue
+                cid = 'C10/%s/iter/start=%d/%s' % (cname, start, ''.join(seq))
+                if not ctx.want(cid):
+                    continue
+                ctx.case(cid, key=cid)
+                o, l = m.build(init), list(init)
+                ito, itl = iter(o), iter(l)
+                for k, a in enumerate(seq):
+                    try:
+                        want = ref_step(l, itl, a)
+                    except IndexError:
+                        want = ('IndexError',)
+                    ok, got = call(lib_step, o, ito, a)
+                    ctx.count('transitions')
+                    ctx.count('lockstep')
+                    if not ok:
+                        got = ('IndexError',) if isinstance(got, IndexError) else ('raised', type(got).__name__)
+                    if got != want or m.read(o) != tuple(l):
+                        ctx.fail(cid, 'list.iter', 'mismatch', {'cls': cname, 'op': 'iter', 'len': start, 'mode': 'interleaved', 'step': k},
+                                 'step %d (%s) of %s from length %d: object gives %r / holds %r, list gives %r / holds %r' % (k, a, ''.join(seq), start, got, m.read(o), want, l))
+                        break
+                    if want == ('IndexError',):
+                        break
 
 
 def check_constructors(ctx, m, maxlen, ntags):
